@@ -294,6 +294,12 @@ def apply(m, mut):
                 t[2] = "+" + str(fab["off"])
             elif arg == "unparsable":
                 t[2] = "x" + str(fab["off"])
+            elif arg in ("prev_fab", "next_fab"):
+                tab = L["fabs"][fn]
+                k = tab.index(fab) + (-1 if arg == "prev_fab" else 1)
+                if not (0 <= k < len(tab)):
+                    return False
+                t[2] = str(tab[k]["off"])
         elif kind == "file":
             if arg == "missing":
                 t[1] = "Cell_D_09999"
@@ -404,7 +410,7 @@ def singles(model, coords=False, textual=False):
             out.append(["index", lv, b, "third", 0])
             out.append(["index", lv, b, "delete", 0])
             out.append(["fod", lv, b, "delete", None])
-            for arg in ("+1", "-1", "mid", "eof", "beyond", "unparsable"):
+            for arg in ("+1", "-1", "mid", "eof", "beyond", "unparsable", "prev_fab", "next_fab"):
                 out.append(["fod", lv, b, "offset", arg])
             if textual:
                 for arg in ("zeros", "plus"):
@@ -444,6 +450,9 @@ def lenient_fab(line):
         return lo, hi, nc
     except Exception:
         return None
+
+
+STRICT_SCAN = int(__import__("os").environ.get("KV_STRICT_SCAN", "1"))
 
 
 def ref_bad(path, limit=None, coords=False):
@@ -549,6 +558,9 @@ def ref_bad(path, limit=None, coords=False):
                 h = lenient_fab(data[pos:e + 1])
                 if h is None:
                     return "level %d %s: layout scan: unreadable header at %d" % (lv, fn, pos)
+                # the end of one FAB must be the beginning of the next: a complete header line, not its tail
+                if (STRICT_SCAN >= 2 or (STRICT_SCAN >= 1 and pos > 0)) and not data.startswith(b"FAB", pos):
+                    return "level %d %s: layout scan: position %d (end of the previous FAB) is not the start of a FAB" % (lv, fn, pos)
                 ncell = 1
                 for l_, h_ in zip(h[0], h[1]):
                     ncell *= (h_ - l_ + 1)
